@@ -104,6 +104,10 @@ def run_pool(ctx):
         "python-ok": (lambda: Raises(x=1, good=True), 1, []),
         "python-raises": (lambda: Raises(x=1, good=False), 1, [True]),
         "shell-true": (lambda: shell.define("true")(), 1, []),
+        # failing shell jobs: a non-zero exit code, and an executable that cannot be started at all (the audit's own
+        # `<executable> --version` probe then meets a missing program too) -- seeded change C36-2
+        "shell-false": (lambda: shell.define("false")(), 1, [True]),
+        "shell-missing-executable": (lambda: shell.define("vf_c36_no_such_executable")(), 1, [True]),
         "wf-two-nodes-ok": (lambda: WfFail(x=1, good=True), 2, []),
         "wf-first-node-raises": (lambda: WfFail(x=1, good=False), 2, [True, True]),
         "split-python": (lambda: Raises(good=True).split(x=[1, 2]), 3, []),
@@ -138,7 +142,7 @@ def run_pool(ctx):
                 ends = [m for m in msgs if "endedAtTime" in m and "wasEndedBy" not in m]
                 case = {"task": name, "flags": flag_name, "worker": worker, "unreadable_record_files": unreadable[:3], "starts": [m["@id"] for m in starts], "ends": [(m["@id"], m.get("errored")) for m in ends], "raised": type(err).__name__ if err else None, "expected_jobs": n_jobs}
                 dom.case((name, flag_name, worker), sample=case)
-                probs = pair_problems(starts, ends, n_jobs, failing=name in ("python-raises", "wf-first-node-raises"))
+                probs = pair_problems(starts, ends, n_jobs, failing=name in FAILING)
                 if unreadable:
                     probs.append("record-file-is-not-one-json-document")
                 for p in probs:
@@ -147,6 +151,9 @@ def run_pool(ctx):
             finally:
                 os.chdir(cwd)
                 shutil.rmtree(tmp, ignore_errors=True)
+
+
+FAILING = ("python-raises", "wf-first-node-raises", "shell-false", "shell-missing-executable")
 
 
 def pair_problems(starts, ends, n_jobs, failing):
@@ -179,7 +186,7 @@ def run(ctx):
         "D: pairing of start_audit/finalize_audit on every path of Job.run/run_async (audit machinery and task hooks assumed "
         "not to raise) and record contents of Audit.start_audit/finalize_audit; the frame condition that the activity id "
         "is not modified between start and end is an assumption of D and is decided only by the bounded pool run (B): "
-        "6 tasks x PROV/ALL through a FileMessenger, records parsed and paired."
+        "8 tasks (incl. two failing shell jobs) x PROV/ALL through a FileMessenger, records parsed and paired."
     )
     for qual in ("Job.run", "Job.run_async"):
         res = verify(ctx, JR.contract(qual, ROLES, noraise=NORAISE))
